@@ -327,14 +327,43 @@ impl PollCase {
             Err(RequestTokenError::Parse(_, _)) => "rparse".to_string(),
             Err(RequestTokenError::Other(_)) => "rother".to_string(),
         };
+        // C05 / C08 on the device-token path: the decisive reply's outcome is handed back WHOLE — a parse error carries the
+        // reply's body bytes, a server error the description and URI the server sent (never on a sound tree: an extra event)
+        let mut lost: Option<String> = None;
+        {
+            let w = world.lock().unwrap();
+            let last_kind = if w.calls > 0 { self.script.get(w.calls - 1).copied() } else { None };
+            if let Some(Ok(sent)) = last_kind.map(reply_for) {
+                match &res {
+                    Err(RequestTokenError::Parse(_, body)) if !noise_free_eq(body, sent.body()) => {
+                        lost = Some(format!("parse error carries {} body bytes, the reply had {}", body.len(), sent.body().len()));
+                    }
+                    Err(RequestTokenError::ServerResponse(e)) if tok.starts_with("rsrv-") => {
+                        let doc: serde_json::Value = serde_json::from_slice(sent.body()).unwrap_or_default();
+                        let want_desc = doc.get("error_description").and_then(|v| v.as_str()).map(|s| s.to_string());
+                        if e.error_description().cloned() != want_desc || e.error_uri().is_some() != doc.get("error_uri").is_some() {
+                            lost = Some(format!("server error delivered with description {:?}, the reply said {:?}", e.error_description(), want_desc));
+                        }
+                    }
+                    _ => {}
+                }
+            }
+        }
         let mut w = world.lock().unwrap();
         w.events.push(tok);
+        if let Some(l) = lost {
+            w.events.push(format!("lost:{l}"));
+        }
         if early_events > 0 {
             // only ever present when the library did work at future-creation time (never on a sound tree)
             w.events.push(format!("early{early_events}"));
         }
         (w.events.clone(), w.clock_vals.clone())
     }
+}
+
+fn noise_free_eq(a: &[u8], b: &[u8]) -> bool {
+    a == b
 }
 
 /// 0 pending, 1 slow_down, 2 transport failure, 3 decisive
@@ -512,6 +541,12 @@ impl CaseInput for PollCase {
         let (trace, clock) = self.run_variant(self.variant);
         let (other, _) = self.run_variant(1 - self.variant);
         let mut oracle: Vec<(String, String)> = Vec::new();
+        for tr in [&trace, &other] {
+            if let Some(e) = tr.iter().find(|e| e.starts_with("lost:")) {
+                oracle.push(("C08:outcome-not-whole".into(), e[5..].to_string()));
+                break;
+            }
+        }
         for tr in [&trace, &other] {
             if let Some(e) = tr.iter().find(|e| e.starts_with("early")) {
                 oracle.push(("C17:work-before-first-poll".into(), format!("{} event(s) (clock readings / requests / sleeps) happened when the future was CREATED, before its first poll", &e[5..])));
